@@ -165,6 +165,10 @@ func checkStructure(n *node.Node) error {
 func runCase(t *rapid.T) {
 	nVal := rapid.IntRange(1, 4).Draw(t, "validators")
 	cfg := node.Config{Genesis: node.EqualGenesis(nVal), BatchSize: nVal + 1, KeepEvents: rapid.SampledFrom([]int{-1, 2, 300}).Draw(t, "keepEvents")}
+	bigBlocks := rapid.IntRange(0, 2).Draw(t, "bigBlocks") == 0
+	if bigBlocks {
+		cfg.MaxTxLength = 256 * 1024 // a chain configured for large payloads: one block's batch spans several WAL blocks
+	}
 	// ---- reference run (crash-free): build the history and learn per-step dumps and operation counts
 	fs0 := prepareFS()
 	n0, err := newNodeOn(fs0, cfg)
@@ -202,6 +206,14 @@ func runCase(t *rapid.T) {
 		switch kind {
 		case "apply":
 			sp := n0.DrawSpec(t, opts, fl)
+			if bigBlocks && rapid.Bool().Draw(t, "big") {
+				sp.Txs = nil
+				for j := 0; j < rapid.IntRange(3, 12).Draw(t, "bigTxs"); j++ {
+					sp.Txs = append(sp.Txs, node.MakeTx(10+j%4, uint64(i*100+j), 1000, node.TxOK, 1, rapid.IntRange(4000, 13000).Draw(t, "bigPad")))
+				}
+				fl["big-batch"] = true
+				fl["txs"] = true
+			}
 			b, err := n0.Build(sp)
 			if err != nil {
 				t.Fatalf("build: %v", err)
@@ -321,6 +333,9 @@ func runCase(t *rapid.T) {
 		n2.Close()
 		inside := k > 0 && k < K
 		records := len(flagsPer[j])
+		if flagsPer[j]["big-batch"] {
+			evid.R.Label("target-step-big-batch", 1)
+		}
 		evid.R.Case(fmt.Sprintf("%s|target=%d|k=%d", strings.Join(hist, "|"), j, k), inside && (records >= 2 || steps[j].Kind != "apply"), func() any {
 			return map[string]any{"kind": "crash", "history": hist, "targetStep": j, "crashPoint": k, "fsOpsInStep": K, "landed": landed}
 		}, "crash", "step-"+steps[j].Kind, "landed-"+landed)
